@@ -60,6 +60,7 @@ class FileScanHelper:
         self.__show_stack_trace = show_stack_trace
         self.__handle_error = handle_error
         self.__continue_on_error = False
+        self.__temporary_fix_files: List[str] = []
 
     # pylint: enable=too-many-arguments
 
@@ -243,6 +244,13 @@ class FileScanHelper:
             self.__handle_scan_error(next_file, this_exception, allow_shortcut=True)
         except UnicodeDecodeError as this_exception:
             self.__handle_scan_error(next_file, this_exception, allow_shortcut=True)
+        finally:
+            # If fixing the file was interrupted by an error, do not leave any of the
+            # temporary files behind.
+            for temporary_file in self.__temporary_fix_files:
+                if os.path.exists(temporary_file):
+                    os.remove(temporary_file)
+            self.__temporary_fix_files.clear()
         return did_fix_file, did_succeed
 
     # pylint: enable=too-many-arguments
@@ -516,6 +524,7 @@ class FileScanHelper:
         source_provider = FileSourceProvider(next_file)
         with tempfile.NamedTemporaryFile() as temp_output:
             temporary_file_name = temp_output.name
+        self.__temporary_fix_files.append(temporary_file_name)
         with open(temporary_file_name, "wt", encoding="utf-8") as source_file:
             POGGER.info("Scanning before line-by-line fixes.")
             fix_context = self.__plugins.starting_new_file(
@@ -783,6 +792,7 @@ class FileScanHelper:
             print(f"MARKDOWN:{ParserHelper.make_value_visible(markdown_from_tokens)}")
         with tempfile.NamedTemporaryFile() as temp_output:
             temporary_file_name = temp_output.name
+        self.__temporary_fix_files.append(temporary_file_name)
         with open(temporary_file_name, "wt", encoding="utf-8") as source_file:
             source_file.write(markdown_from_tokens)
             next_file = temporary_file_name
